@@ -37,6 +37,8 @@ CLAIMS = {
                 note=_NOTE, technique="symbolic execution of Finder.find_one/exists and DataSid.exists/children/siblings (CrossHair+z3) over stubbed sources with symbolic content"),
     "C11": dict(text=_X + ". The real FindInPaths (local and server) and FindInAll run against a model of the file system (glob.glob answered from an explicit universe built through the real path(c) from Sids with a symbolic name character, plus concrete and symbolic junk paths) and are compared with the search's denotation over the same entities.",
                 note=_NOTE + "; the operating system is a stated model (xhair/globstub.py)", technique="symbolic execution of FindInPaths.star_search_simple/FindInAll.find/FindInConstants (CrossHair+z3) over a glob stub with symbolic universe"),
+    "C18": dict(text=_X + ". get_next / get_last / get_new (the repository's NextGetter plugin routed through GetFromAll and the data configuration) on version skeletons with symbolic digits under miniA and the shipped configuration; existing versions served by a type-aware list source; a publish step.",
+                note=_NOTE, technique="symbolic execution of get_next/get_last/get_new and NextGetter.get_attr (CrossHair+z3), symbolic version digits, enumerated leading digits"),
 }
 
 NOT_APPLICABLE = {}
